@@ -33,7 +33,7 @@ def main():
         except Exception as e: continue
         open('/verif/work/proto/h.ttf','wb').write(font)
         ss=strs+[''.join(rng.choice('abcdef') for _ in range(rng.randrange(5,40))) for _ in range(40)]
-        out=subprocess.run(['/verif/work/proto/walk','/verif/work/proto/h.ttf'],input='\n'.join(ss)+'\n',capture_output=True,text=True,timeout=120)
+        out=subprocess.run([__import__('os').environ.get('WALK','/verif/work/proto/walk'),'/verif/work/proto/h.ttf'],input='\n'.join(ss)+'\n',capture_output=True,text=True,timeout=120)
         if out.returncode!=0:
             crashes+=1
             if crashes<4: print('CRASH it',it,out.stderr[-1500:]); json.dump(spec,open('/verif/work/proto/hcrash%d.json'%crashes,'w'))
@@ -41,7 +41,7 @@ def main():
         last=out.stdout.strip().split('\n')
         if last[0]=='NOFACE': noface+=1; continue
         for l in last[:-1]:
-            pass
+            print('it',it,l)
         kv=dict(x.split('=') for x in last[-1].split())
         for k in tot: tot[k]+=int(kv[k])
         if int(kv['viol'])>0 and tot['viol']<200: json.dump(spec,open('/verif/work/proto/hviol_%d.json'%it,'w'))
